@@ -66,14 +66,14 @@ package align
 //@   modifies field(seqbag.alphabet)
 
 //@ func (*seqbag).DetectAlphabet
-//@   props C03
+//@   props C03 C05
 //@   trusted iterates over the rows with a closure passed to IterateChar (closure calls are not inlined by the generator); it only reads the residues
 //@   requires sb != nil
 //@   ensures alphabet == AMINOACIDS || alphabet == NUCLEOTIDS || alphabet == BOTH || alphabet == UNKNOWN
 //@   modifies nothing
 
 //@ func (*seqbag).AutoAlphabet
-//@   props C03 C01
+//@   props C03 C01 C05
 //@   requires sb != nil
 //@   ensures sb.alphabet == AMINOACIDS || sb.alphabet == NUCLEOTIDS || sb.alphabet == UNKNOWN
 //@   modifies sb.alphabet
